@@ -214,6 +214,21 @@ def rule_rej_exc_strat(repo, tier):
     if not tries:
         res.add(Finding('C08.EXC', f, 'the linear solver is called outside a try block: a raising solver propagates out of step() with the '
                         'trial state half applied', node=solver_calls[0]))
+    # the solver is user-supplied: whatever it raises (RuntimeError from torch, ValueError, its own exception class) ends the trial; a handler narrowed to
+    # the classes the library's own solvers raise lets everything else out of step() with the trial half applied
+    for t in tries:
+        types = []
+        for h in t.handlers:
+            if h.type is None:
+                types.append('BaseException')
+            else:
+                types += [dotted(x) or src(x) for x in (h.type.elts if isinstance(h.type, ast.Tuple) else [h.type])]
+        wide = any(x in ('Exception', 'BaseException') for x in types)
+        res.inst({'function': f.fq, 'handler catches': types, 'every exception of a user solver': wide}, 'handler-types')
+        if t.handlers and not wide:
+            res.add(Finding('C08.EXC', f, 'the handler around the solver call catches %s only: a user-supplied solver that raises anything else (RuntimeError, ValueError, '
+                            'its own class) leaves step() through the exception with the parameters and loss of a half-applied trial' % ', '.join(types), node=t,
+                            construct='solver handler narrower than Exception'))
     n_back = 0
     for ev, ex in pths:
         zeroed = False
@@ -364,6 +379,31 @@ def _quality_region(test, truth, qname):
     return None
 
 
+class _SP(tuple):
+    """(region, env, stores) with the flag `nan`: the path an UNORDERED quality (0/0 of a zero step: every comparison False) takes"""
+    def __new__(cls, t, nan):
+        o = tuple.__new__(cls, t)
+        o.nan = nan
+        return o
+
+
+def _nan_truth(test, qname):
+    """truth value of a branch test when the quality is NaN (None: does not depend on it / unknown)"""
+    if isinstance(test, ast.Compare) and len(test.ops) == 1:
+        if any(isinstance(x, ast.Name) and x.id == qname for x in ast.walk(test)):
+            return isinstance(test.ops[0], ast.NotEq)
+        return None
+    if isinstance(test, ast.UnaryOp) and isinstance(test.op, ast.Not):
+        v = _nan_truth(test.operand, qname)
+        return None if v is None else not v
+    if isinstance(test, ast.BoolOp):
+        vs = [_nan_truth(v, qname) for v in test.values]
+        if any(v is None for v in vs):
+            return None
+        return all(vs) if isinstance(test.op, ast.And) else any(vs)
+    return None
+
+
 def strategy_paths(f):
     """per path: (region, final pg env (inlined over the initial pg values), ordered store list)"""
     pgname = f.pos_params[1]
@@ -391,6 +431,12 @@ def strategy_paths(f):
                 r = _quality_region(e[1], e[2], qname)
                 if r:
                     facts[r[0]] = r[1]
+        nan_path = True
+        for e in ev:
+            if e[0] == 'assume' and qname:
+                tv = _nan_truth(e[1], qname)
+                if tv is not None and bool(e[2]) != tv:
+                    nan_path = False
         if facts.get('high') is True:
             region = 'high'
         elif facts.get('high') is False and facts.get('low') is True:
@@ -399,7 +445,7 @@ def strategy_paths(f):
             region = 'low'
         else:
             region = None
-        out.append((region, env, stores))
+        out.append(_SP((region, env, stores), nan_path))
     return out, pgname
 
 
@@ -438,6 +484,18 @@ def rule_strategy(repo, tier):
     if seen_regions - {None} != {'high', 'mid', 'low'}:
         res.add(Finding('C08.ROLE', f, 'Adaptive.update does not distinguish the three documented quality regions (found %s)' % sorted(str(x) for x in seen_regions),
                         construct='adaptive regions'))
+    # the documented "otherwise" case takes everything that is not above `low`, an unordered quality included (0/0 when the step is exactly zero: a call at
+    # the optimum): the path on which every comparison of the quality fails must be the low-quality action
+    for sp_ in sp:
+        if getattr(sp_, 'nan', False):
+            v = sp_[1].get('damping')
+            inner, _c = _strip_clamp(v) if v is not None else (None, False)
+            fac = _factors(inner, pg) if inner is not None else None
+            okn = fac == sorted(want['low'])
+            res.inst({'function': f.fq, 'path of an unordered (NaN) quality': src(v)[:60] if v is not None else None, 'is the "otherwise" action': okn}, (f.fq, 'nan'))
+            if not okn:
+                res.add(Finding('C08.ROLE', f, 'Adaptive.update: a quality that compares False with everything (0/0 of a zero step) leaves the damping as %s; the documented '
+                                'three-way rule sends everything that is not above `low` to damping*up' % ('*'.join(fac) if fac else 'it is'), construct='adaptive unordered quality'))
     # TrustRegion
     f = repo.func(STRAT, 'TrustRegion.update')
     sp, pg = strategy_paths(f)
